@@ -13,7 +13,7 @@ from .tlaval import to_json, from_json
 from .props.c14 import py_value, py_filter
 
 CONFIGS = ['memory', 'file', 's3:', 's3:p', 's3:p/q']
-ALL_FILTERS = ['none', 'k1a', 'k1aOrNone', 'k2ge1', 'k1star_k2', 'k2is1', 'skipinc', 'skipinc_k1a']
+ALL_FILTERS = ['none', 'k1a', 'k1aOrNone', 'k2ge1', 'k1star_k2', 'k2is1', 'skipinc', 'skipinc_k1a', 'k1dict']
 
 
 def V(ty, n=0, s=()):
@@ -32,7 +32,8 @@ def S(text):
 
 
 METAS_SMALL = [meta(), meta(k1=S('a')), meta(k1=S('ab'), k2=V('num', 10)), meta(k2=V('num', 50), inc=V('bool', 0)),
-               meta(k1=S('a'), inc=V('bool', 1)), meta(k1=V('none'), k2=V('num', 10), inc=V('none'))]
+               meta(k1=S('a'), inc=V('bool', 1)), meta(k1=V('none'), k2=V('num', 10), inc=V('none')),
+               meta(k1=V('dict', 1), k2=V('num', 10)), meta(k1=V('dict', 2))]
 
 
 def consts(**over):
@@ -210,13 +211,20 @@ class StoreDriver(object):
             ids.append(r.id)
             import copy
             saved.append((copy.deepcopy(data), copy.deepcopy(pm)))
+            # what was handed to the recording belongs to the caller, who goes on using (and changing) it after the save
+            from .recbind import mutate_in_place
+            for v in list(data.values()) + list(pm.values()):
+                mutate_in_place(v)
+            pm['CHANGED-AFTER-SAVE'] = True
+            data['CHANGED-AFTER-SAVE'] = True
             if probe:
                 try:
                     full = writer.get_recording(r.id)
                     alone = writer.get_recording_metadata(r.id)
-                    if set(full.get_all_keys()) != set(data) or not same_value(dict(alone), pm) or \
-                            not same_value(dict(full.get_metadata()), pm):
-                        mm('roundtrip', idx, (sorted(data), pm), (sorted(full.get_all_keys()), dict(alone)),
+                    data0, pm0 = saved[-1]
+                    if set(full.get_all_keys()) != set(data0) or not same_value(dict(alone), pm0) or \
+                            not same_value(dict(full.get_metadata()), pm0):
+                        mm('roundtrip', idx, (sorted(data0), pm0), (sorted(full.get_all_keys()), dict(alone)),
                            'recording fetched through the saving cassette right after the save')
                 except Exception as ex:  # noqa
                     mm('roundtrip', idx, 'recording %s' % r.id, repr(ex),
